@@ -8,7 +8,7 @@ Open Scope Z_scope.
 Inductive exn :=
 | ZeroDivisionError | ValueError | IndexError | TypeError | AttributeError
 | AssertionError | KeyError | UnboundLocalError | OverflowError | NotImplementedErr
-| UsageError | ElectionError | ElectionProfileError.
+| UsageError | ElectionError | ElectionProfileError | ArithmeticValuesError.
 
 Inductive res (A : Type) := Ok (a : A) | Raise (e : exn).
 Arguments Ok {A} a.
